@@ -13,7 +13,7 @@ EXTENDS Naturals, Sequences, FiniteSets, TLC, Json, IOUtils, TLCExt
 Recs == ndJsonDeserialize(IOEnv.TRACE_FILE)
 Ref == Recs[1].ref
 
-OKContents == {"R1", "R2", "K1", "K2"}
+OKContents == {"R1", "R2", "R3", "R4", "K1", "K2"}
 Returned(c) == IF c \in OKContents THEN c ELSE "empty"
 
 \* state threaded through one history: <<disk, passed, failingClauses>>
